@@ -58,6 +58,12 @@ inductive XStep | appendFailReport | setShouldStop
 deriving Repr, DecidableEq
 inductive GlobKind | rootDirGlob
 deriving Repr, DecidableEq
+/-- how the condition of a `skipif` mark is read from `mark.args` / `mark.kwargs` -/
+inductive CExpr | arg0 | kw (name : String) (dflt : Bool) | ifArgs (t e : CExpr) | neg (e : CExpr) | lit (b : Bool)
+deriving Repr, DecidableEq
+/-- what `pytask_collect_node` does to the `root_dir` of a DirectoryNode -/
+inductive RStep | joinModuleDir | normalise | checkCasing
+deriving Repr, DecidableEq
 """
 
 
@@ -661,6 +667,207 @@ def _directory_node():
     return kind, load_prod, dep_raises
 
 
+# ------------------------------------------------------------------------------------------------
+# skipif conditions: provisional_utils._is_condition_true against skipping.py
+# ------------------------------------------------------------------------------------------------
+
+def _truth(c) -> bool | None:
+    if isinstance(c, ast.Constant) and (c.value is None or isinstance(c.value, (bool, int, str))):
+        return bool(c.value)
+    return None
+
+
+def _cexpr(e, m: str, env: dict, where: str):
+    """expression over `mark.args` / `mark.kwargs` → CExpr (truthiness of the value it denotes)"""
+    if isinstance(e, ast.Name) and e.id in env:
+        return _cexpr(env[e.id], m, env, where)
+    u = _u(e)
+    if u == f"{m}.args[0]":
+        return ("arg0",)
+    if isinstance(e, ast.Call) and _callee(e) == "bool" and len(e.args) == 1 and not e.keywords:
+        return _cexpr(e.args[0], m, env, where)
+    if isinstance(e, ast.UnaryOp) and isinstance(e.op, ast.Not):
+        return ("neg", _cexpr(e.operand, m, env, where))
+    if isinstance(e, ast.IfExp):
+        t = _u(e.test)
+        if t in (f"{m}.args", f"len({m}.args) > 0", f"len({m}.args) >= 1", f"bool({m}.args)"):
+            return ("ifArgs", _cexpr(e.body, m, env, where), _cexpr(e.orelse, m, env, where))
+        if t in (f"not {m}.args", f"len({m}.args) == 0"):
+            return ("ifArgs", _cexpr(e.orelse, m, env, where), _cexpr(e.body, m, env, where))
+        raise _err(f"{where}: unrecognised test {t!r}")
+    if isinstance(e, ast.Call) and _u(e.func) == f"{m}.kwargs.get" and not e.keywords and len(e.args) in (1, 2) and \
+            isinstance(e.args[0], ast.Constant) and isinstance(e.args[0].value, str):
+        d = False if len(e.args) == 1 else _truth(e.args[1])
+        if d is None:
+            raise _err(f"{where}: the default of {u!r} is not a constant")
+        return ("kw", Str(e.args[0].value), d)
+    if isinstance(e, ast.Subscript) and _u(e.value) == f"{m}.kwargs" and isinstance(e.slice, ast.Constant) and isinstance(e.slice.value, str):
+        return ("kw", Str(e.slice.value), False)
+    if _truth(e) is not None:
+        return ("lit", _truth(e))
+    raise _err(f"{where}: cannot read {u[:80]!r} as the condition of a skipif mark")
+
+
+def _skipif_facts():
+    # (a) the re-creation side: `_is_condition_true(mark)` = truthiness of an expression over mark.args / mark.kwargs
+    fn = _top_func("provisional_utils.py", "_is_condition_true")
+    ps = _params(fn)
+    if len(ps) != 1:
+        raise _err("_is_condition_true: expected one parameter")
+    env, ret = {}, None
+    for st in _body(fn):
+        if isinstance(st, ast.Assign) and len(st.targets) == 1 and isinstance(st.targets[0], ast.Name) and ret is None:
+            env[st.targets[0].id] = st.value
+        elif isinstance(st, ast.Return) and st.value is not None and ret is None:
+            ret = st.value
+        elif not _no_effect(st):
+            raise _err(f"_is_condition_true: unrecognised statement {_u(st)[:60]!r}")
+    if ret is None:
+        raise _err("_is_condition_true: no return")
+    recreate = _cexpr(ret, ps[0], env, "_is_condition_true")
+    # how `_skipped_tasks` combines the marks of one task
+    src = _top_func("provisional_utils.py", "_skipped_tasks")
+    combine = None
+    for lp in [n for n in ast.walk(src) if isinstance(n, ast.For) and _u(n.iter) == "session.tasks"]:
+        t = lp.target.id if isinstance(lp.target, ast.Name) else None
+        for iff in [n for n in ast.walk(lp) if isinstance(n, ast.If)]:
+            if not any(isinstance(n, (ast.Yield, ast.YieldFrom)) for n in ast.walk(iff)):
+                continue
+            parts = iff.test.values if isinstance(iff.test, ast.BoolOp) and isinstance(iff.test.op, ast.Or) else [iff.test]
+            for part in parts:
+                if _u(part) == f"has_mark({t}, 'skip')":
+                    continue
+                if isinstance(part, ast.Call) and _callee(part) in ("any", "all") and len(part.args) == 1 and \
+                        isinstance(part.args[0], (ast.GeneratorExp, ast.ListComp)) and len(part.args[0].generators) == 1:
+                    g = part.args[0].generators[0]
+                    if isinstance(g.target, ast.Name) and not g.ifs and _u(g.iter) == f"get_marks({t}, 'skipif')" and \
+                            _u(part.args[0].elt) == f"_is_condition_true({g.target.id})" and combine is None:
+                        combine = _callee(part)
+                        continue
+                raise _err(f"_skipped_tasks: yields a task under {_u(part)[:80]!r}")
+    if combine is None:
+        raise _err("_skipped_tasks: no `any(_is_condition_true(mark) for mark in get_marks(task, 'skipif'))`")
+    # (b) the regular side: skipping.py calls `skipif(*mark.args, **mark.kwargs)` and looks at one element of what it returns
+    sk = _top_func("skipping.py", "skipif")
+    a = sk.args
+    if a.posonlyargs or a.vararg or a.kwarg or len(a.args) != 1:
+        raise _err("skipping.skipif: expected exactly one positional-or-keyword parameter (the condition)")
+    param = a.args[0].arg
+    rets = [n for n in ast.walk(sk) if isinstance(n, ast.Return)]
+    if len(rets) != 1 or not isinstance(rets[0].value, ast.Tuple) or any(not _no_effect(st) for st in _body(sk) if st is not rets[0]):
+        raise _err("skipping.skipif: does not just return a tuple of its parameters")
+    where = [i for i, e in enumerate(rets[0].value.elts) if isinstance(e, ast.Name) and e.id == param]
+    if len(where) != 1:
+        raise _err(f"skipping.skipif: the returned tuple does not hold {param!r} exactly once")
+    setup = _top_func("skipping.py", "pytask_execute_task_setup")
+    marks_var = args_var = None
+    read = scombine = None
+    for n in ast.walk(setup):
+        if isinstance(n, ast.Assign) and len(n.targets) == 1 and isinstance(n.targets[0], ast.Name):
+            v = n.value
+            if _u(v) == "get_marks(task, 'skipif')":
+                marks_var = n.targets[0].id
+            elif isinstance(v, (ast.ListComp, ast.GeneratorExp)) and isinstance(v.elt, ast.Call) and _callee(v.elt) == "skipif":
+                g = v.generators[0]
+                if len(v.generators) != 1 or g.ifs or not isinstance(g.target, ast.Name) or \
+                        _u(v.elt) != f"skipif(*{g.target.id}.args, **{g.target.id}.kwargs)" or _u(g.iter) != marks_var:
+                    raise _err(f"skipping.pytask_execute_task_setup: unrecognised evaluation of the skipif marks {_u(v)[:80]!r}")
+                args_var = n.targets[0].id
+    for n in ast.walk(setup):
+        if isinstance(n, ast.If) and any(isinstance(r, ast.Raise) and "Skipped(" in _u(r) + "(" and "SkippedAncestorFailed" not in _u(r)
+                                         and "SkippedUnchanged" not in _u(r) for r in n.body):
+            test = n.test
+            if isinstance(test, ast.Name):
+                defs = [x.value for x in ast.walk(setup) if isinstance(x, ast.Assign) and len(x.targets) == 1 and _u(x.targets[0]) == test.id]
+                if len(defs) != 1:
+                    continue
+                test = defs[0]
+            if isinstance(test, ast.Call) and _callee(test) in ("any", "all") and len(test.args) == 1 and \
+                    isinstance(test.args[0], (ast.GeneratorExp, ast.ListComp)) and len(test.args[0].generators) == 1:
+                g = test.args[0].generators[0]
+                e = test.args[0].elt
+                if args_var is not None and _u(g.iter) == args_var and not g.ifs and isinstance(g.target, ast.Name) and \
+                        isinstance(e, ast.Subscript) and _u(e.value) == g.target.id and isinstance(e.slice, ast.Constant) and \
+                        isinstance(e.slice.value, int) and e.slice.value >= 0:
+                    if read is not None:
+                        raise _err("skipping.pytask_execute_task_setup: two decisions over the skipif marks")
+                    read, scombine = e.slice.value, _callee(test)
+    if read is None:
+        raise _err("skipping.pytask_execute_task_setup: no `any(arg[i] for arg in [skipif(*mark.args, **mark.kwargs) …])` deciding `raise Skipped`")
+    return dict(recreate=recreate, combine=combine, param=param, tuple_index=where[0], read_index=read, setup_combine=scombine)
+
+
+# ------------------------------------------------------------------------------------------------
+# collect.py: the root_dir of a DirectoryNode — joined to the directory of the task module, THEN normalised
+# ------------------------------------------------------------------------------------------------
+
+def _root_dir_facts():
+    fn = _top_func("collect.py", "pytask_collect_node")
+    ps = _params(fn)
+    if len(ps) != 3:
+        raise _err("collect.pytask_collect_node: parameters")
+    path = ps[1]
+    blocks = [st for st in _body(fn) if isinstance(st, ast.If) and _u(st.test) == "isinstance(node, DirectoryNode)"]
+    if len(blocks) != 1 or blocks[0].orelse:
+        raise _err("collect.pytask_collect_node: expected one `if isinstance(node, DirectoryNode):` block")
+    for st in _body(fn):
+        if st is not blocks[0] and any(isinstance(n, ast.Attribute) and n.attr == "root_dir" and isinstance(n.ctx, ast.Store) for n in ast.walk(st)):
+            raise _err("collect.pytask_collect_node: root_dir is assigned outside the DirectoryNode block")
+    RD = "node.root_dir"
+
+    env = {}      # helper variables: `joined = path / node.root_dir`
+
+    def expr_steps(e):
+        u = _u(e)
+        if u == RD:
+            return []
+        if isinstance(e, ast.Name) and e.id in env:
+            return expr_steps(env[e.id])
+        if isinstance(e, ast.Call) and _u(e.func) == f"{path}.joinpath" and len(e.args) == 1 and not e.keywords:
+            return expr_steps(e.args[0]) + [("joinModuleDir",)]
+        if isinstance(e, ast.BinOp) and isinstance(e.op, ast.Div) and _u(e.left) == path:
+            return expr_steps(e.right) + [("joinModuleDir",)]
+        if isinstance(e, ast.Call) and _u(e.func) in ("os.path.normpath", "normpath") and len(e.args) == 1 and not e.keywords:
+            return expr_steps(e.args[0]) + [("normalise",)]
+        if isinstance(e, ast.Call) and _u(e.func) == "Path" and len(e.args) == 1 and not e.keywords:
+            return expr_steps(e.args[0])
+        raise _err(f"collect.pytask_collect_node: unrecognised value for root_dir {u[:80]!r}")
+
+    def stmts(body, rel, ab):
+        """append the steps of `body` to the relative / absolute lists (None = this case does not reach the statements)"""
+        for st in body:
+            if isinstance(st, ast.Assign) and len(st.targets) == 1 and _u(st.targets[0]) == RD:
+                steps = expr_steps(st.value)
+                for acc in (rel, ab):
+                    if acc is not None:
+                        acc.extend(steps)
+            elif isinstance(st, ast.Assign) and len(st.targets) == 1 and isinstance(st.targets[0], ast.Name) and RD in _u(st.value):
+                env[st.targets[0].id] = st.value
+            elif isinstance(st, ast.Expr) and isinstance(st.value, ast.Call) and _callee(st.value) == "_raise_error_if_casing_of_path_is_wrong" \
+                    and st.value.args and _u(st.value.args[0]) == RD:
+                for acc in (rel, ab):
+                    if acc is not None:
+                        acc.append(("checkCasing",))
+            elif isinstance(st, ast.If) and _u(st.test) == f"{RD} is None":
+                # a missing root_dir is the directory of the module itself (absolute, already normal)
+                if len(st.body) != 1 or st.orelse or _u(st.body[0]) != f"{RD} = {path}":
+                    raise _err("collect.pytask_collect_node: unrecognised default of root_dir")
+            elif isinstance(st, ast.If) and _u(st.test) == f"not {RD}.is_absolute()":
+                stmts(st.body, rel, None)
+                stmts(st.orelse, None, ab)
+            elif isinstance(st, ast.If) and _u(st.test) == f"{RD}.is_absolute()":
+                stmts(st.body, None, ab)
+                stmts(st.orelse, rel, None)
+            elif isinstance(st, ast.If) and _u(st.test) == f"not isinstance({RD}, UPath)" and not st.orelse:
+                stmts(st.body, rel, ab)          # local paths (the model has no remote ones)
+            elif any(isinstance(n, ast.Attribute) and n.attr == "root_dir" and isinstance(n.ctx, ast.Store) for n in ast.walk(st)):
+                raise _err(f"collect.pytask_collect_node: root_dir is assigned under {_u(st)[:60]!r}")
+            # anything else (the name of the node) does not touch root_dir
+    rel, ab = [], []
+    stmts(blocks[0].body, rel, ab)
+    return rel, ab
+
+
 def _facts():
     setup = _top_func("provisional.py", "pytask_execute_task_setup")
     if _params(setup)[:2] != ["session", "task"]:
@@ -671,7 +878,8 @@ def _facts():
     gsteps, gelse = _gen_steps()
     rtry, rcatch, rhandler = _recreate()
     kind, load_prod, dep_raises = _directory_node()
-    return dict(setup=setup_steps, prods=prods_steps, node=_node_steps(), gen=gsteps, gelse=gelse, rtry=rtry, rcatch=rcatch,
+    rd_rel, rd_abs = _root_dir_facts()
+    return dict(skipif=_skipif_facts(), rd_rel=rd_rel, rd_abs=rd_abs, setup=setup_steps, prods=prods_steps, node=_node_steps(), gen=gsteps, gelse=gelse, rtry=rtry, rcatch=rcatch,
                 rhandler=rhandler, kind=kind, load_prod=load_prod, dep_raises=dep_raises)
 
 
@@ -702,6 +910,19 @@ def provgen_section() -> list[str]:
     L.append(f"def dirCollect : GlobKind := {_lean(f['kind'])}")
     L.append(f"def dirLoadProduct : String := {X.lean_str(f['load_prod'])}")
     L.append(f"def dirLoadDependencyRaises : Bool := {X.lean_bool(f['dep_raises'])}")
+    k = f["skipif"]
+    L.append("/-- `provisional_utils._is_condition_true(mark)` (truthiness of …) and how `_skipped_tasks` combines the marks of a task. -/")
+    L.append(f"def skipifReadRecreate : CExpr := {_lean(k['recreate'])}")
+    L.append(f"def skipifCombineRecreate : String := {X.lean_str(k['combine'])}")
+    L.append("/-- skipping.py: `skipif(*mark.args, **mark.kwargs)` binds the condition to this parameter, returns it at `skipifTupleIndex`;")
+    L.append("    the setup hook skips when `<skipifCombineSetup>(arg[skipifReadIndex] for arg in …)`. -/")
+    L.append(f"def skipifParam : String := {X.lean_str(k['param'])}")
+    L.append(f"def skipifTupleIndex : Nat := {k['tuple_index']}")
+    L.append(f"def skipifReadIndex : Nat := {k['read_index']}")
+    L.append(f"def skipifCombineSetup : String := {X.lean_str(k['setup_combine'])}")
+    L.append("/-- `collect.pytask_collect_node`, DirectoryNode branch: what happens to a relative / an absolute `root_dir`, in order. -/")
+    L.append(f"def rootDirRelative : List RStep := {_lean(f['rd_rel'])}")
+    L.append(f"def rootDirAbsolute : List RStep := {_lean(f['rd_abs'])}")
     L.append("end Prv")
     L.append("")
     return L
